@@ -266,6 +266,44 @@ func soundSign(c *engine.Ctx) {
 				t.Fail("sound/verify/h-out-of-range-accepted", "h = %x (valid h = %x) verifies", hv, h)
 			}
 		}
+		// h + n in 32 bytes: a signature whose h is below 2^256 - n (found by walking the scripted r) so that the
+		// out-of-range value keeps the size of an H2 output - a reduction instead of a range check would accept it
+		{
+			lim := new(big.Int).Sub(new(big.Int).Lsh(big.NewInt(1), 256), nOrd)
+			found := false
+			for i := 0; i < 64 && !found; i++ {
+				ri := chain(fmt.Sprintf("sound/sign/small-h/r#%d", i))
+				h2, s2, der2, ok2 := w.expectSig(msg, ri)
+				if !ok2 || h2.Cmp(lim) >= 0 {
+					continue
+				}
+				found = true
+				var v0 bool
+				if t.Guard("sound/verify", func() { v0 = sm9.Verify(w.pub, uid, hid, msg, h2, s2) }) || !v0 {
+					if !v0 {
+						t.Fail("verify/valid-rejected", "sm9.Verify rejects the reference signature with small h %x", h2)
+					}
+					break
+				}
+				hn := new(big.Int).Add(h2, nOrd)
+				derN := bytes.Replace(der2, sm9ref.Bytes32(h2), sm9ref.Bytes32(hn), 1)
+				var v1, v2 bool
+				if t.Guard("sound/verify", func() {
+					v1 = sm9.Verify(w.pub, uid, hid, msg, hn, s2)
+					v2 = sm9.VerifyASN1(w.pub, uid, hid, msg, derN)
+				}) {
+					break
+				}
+				t.Eval(2)
+				if v1 || v2 {
+					t.Fail("sound/verify/h-out-of-range-accepted", "h + n = %x still fits 32 bytes (valid h = %x) and verifies (Verify=%v VerifyASN1=%v)", hn, h2, v1, v2)
+				}
+				t.Nontrivial("sound/sign/raw/h+n-in-32-bytes")
+			}
+			if !found {
+				t.Fail("HARNESS/small-h-not-found", "no signature with h < 2^256 - n in 64 tries")
+			}
+		}
 		t.Nontrivial("sound/sign/raw")
 		d.addBool("ok", true)
 		d.finish(t)
